@@ -2872,7 +2872,9 @@ impl<'source> Parser<'source> {
 
         let mut args = AstVec::new();
 
-        while let Some(arg) = self.parse_binding(context, BindingContext::Default)? {
+        // The loop's bindings are registered as assigned after the iterable has been parsed,
+        // so that the iterable can read a non-local with the same name, e.g. `for x in 0..x`.
+        while let Some(arg) = self.parse_binding(context, BindingContext::Let)? {
             args.push(arg);
 
             match self.peek_next_token_on_same_line() {
@@ -2896,6 +2898,10 @@ impl<'source> Parser<'source> {
             None => return self.consume_token_and_error(SyntaxError::ExpectedForIterable),
         };
 
+        // The iterable's accesses are finalized before the bindings become assigned
+        self.frame_mut()?.finalize_id_accesses();
+        self.add_assigned_ids_for_bindings(&args)?;
+
         match self.parse_indented_block()? {
             Some(body) => {
                 let result = self.push_node_with_start_span(
@@ -2911,6 +2917,24 @@ impl<'source> Parser<'source> {
             }
             None => self.consume_token_and_error(ExpectedIndentation::ForBody),
         }
+    }
+
+    // Registers the ids of bindings that were parsed with BindingContext::Let as assigned
+    fn add_assigned_ids_for_bindings(&mut self, bindings: &[AstIndex]) -> Result<()> {
+        for &binding in bindings {
+            match self.ast.node(binding).node.clone() {
+                Node::Id(id, _) => {
+                    self.frame_mut()?.ids_assigned_in_frame.insert(id);
+                }
+                Node::MapPattern { entries, .. } => self.add_assigned_ids_for_bindings(&entries)?,
+                Node::MapKeyRebind { id_or_ignored, .. } => {
+                    self.add_assigned_ids_for_bindings(&[id_or_ignored])?
+                }
+                _ => {}
+            }
+        }
+
+        Ok(())
     }
 
     // Parses a loop declared with the `loop` keyword
